@@ -15,10 +15,19 @@ Record AdapterOK (A : adapter) : Prop := {
   (* H3 *) ok_fffd : forall l, existsb is_fffd l = false -> existsb is_fffd (normalize_validate A l) = true ->
              normalize_validate A l <> l }.
 
-(* C13's internal round trip, taken as a premise (proved separately by the C13 work) *)
-Definition PunyRT (cfg : bool) : Prop := forall l p,
+(* C13's internal round trip as first written: UNSATISFIABLE (the U8Internal instantiation lower-cases the basic
+   code units, so [65; 252] -> "A-eha" -> [97; 252]); kept only for the lemma PunyRT_old_unsat of Proofs/Idna_PunyRT.v *)
+Definition PunyRT_old (cfg : bool) : Prop := forall l p,
   len l <= PUNYCODE_ENCODE_MAX_INPUT_LENGTH -> usv_list l -> existsb (fun c => negb (is_ascii_cp c)) l = true ->
   encode_internal cfg l = Ok p -> decode_with cfg U8Internal p = Ok l /\ decode_with cfg CharInternal p = Ok l.
+
+(* C13's internal round trip, stated correctly: what the internal encoder writes for a label of at most 1000 scalar
+   values is read back by the char decoder as the label, and by the u8 decoder (which lower-cases the basic code
+   units) as the label with its ASCII letters lower-cased.  No longer a premise: Proofs/Idna_PunyRT.v proves
+   punyrt_holds : forall cfg, PunyRT cfg  from the C13 development. *)
+Definition PunyRT (cfg : bool) : Prop := forall l p,
+  len l <= PUNYCODE_ENCODE_MAX_INPUT_LENGTH -> usv_list l -> encode_internal cfg l = Ok p ->
+  decode_with cfg CharInternal p = Ok l /\ decode_with cfg U8Internal p = Ok (map to_lower l).
 
 (* deny lists the API can build *)
 Definition valid_deny (deny : N) : Prop :=
